@@ -384,12 +384,13 @@ HARNESSES = [Harness(f"pool_twin[{name}]", sym_pool, replay_pool, _cfg_pool(name
     Harness("classifier_tie_breaking", sym_clf, replay_clf, lambda tier: [dict(n=2, nq=2)],
             ["skactiveml.base:SkactivemlClassifier.predict", "skactiveml.utils._selection:rand_argmin"], required_witnesses=("ran",)),
 ]
-BOUNDS = dict(quick="pool: n = 3, batch 2, candidates=None for the 15 adapter strategies + TypiClust with a clusterer that draws from the "
-                    "generator it is given (global when random_state=None); stream: all 7 managers and 7 strategies on 2 chunks (2+1); "
+BOUNDS = dict(quick="pool: n = 3, batch 2, candidates=None for the 25 adapter strategies (TypiClust / Clue / ProbCover with a clusterer that draws from the "
+                    "generator it is given, global when random_state=None), random_state as int and as RandomState instance; the Monte-Carlo "
+                    "branch of _conditional_expect; stream: all 7 managers and 7 strategies on 2 chunks (2+1); "
                     "ParzenWindowClassifier.predict tie-breaking; symbolic integer seed, two disjoint symbolic global streams",
               thorough="3 candidate modes, batch 1-3, 3 chunks",
-              outside="determinism of third-party estimators themselves; random_state=None (no claim); ProbCover / Clue / DropQuery "
-                      "(same clusterer construction as TypiClust, not encoded)")
+              outside="determinism of third-party estimators themselves; random_state=None (no claim); DropQuery and the strategies "
+                      "without adapter")
 ASSUMPTIONS = [
     "two generators produce the same numbers iff equal seed terms and equal draw histories (uninterpreted functions)",
     "clusterer contract: labels / distances are draws from the generator passed as random_state, from the global one if None",
